@@ -117,6 +117,10 @@ pub mod async_fs {
         open spec fn deep(&self) -> Seq<u8> { self.fend() }
         #[verifier::prophetic]
         open spec fn end_deep(&self) -> Seq<u8> { self.fend() }
+        #[verifier::prophetic]
+        open spec fn fr(&self) -> Fr { Fr::Nil }
+        #[verifier::prophetic]
+        open spec fn end_fr(&self) -> Fr { Fr::Nil }
         #[verifier::external_body]
         proof fn resolved(&self) {}
         #[verifier::external_body]
